@@ -18,6 +18,8 @@ from . import shim, symx
 from .symx import L, SBool, SReal
 
 VERIF = os.path.dirname(os.path.dirname(os.path.abspath(__file__)))
+# evidence / replay output directory: /verif itself, except for self-test runs on a scratch copy of the repository
+OUT = os.environ.get("VERIF_OUT_DIR") or VERIF
 EXIT_OK, EXIT_VIOLATION, EXIT_INCONCLUSIVE, EXIT_HARNESS = 0, 1, 2, 3
 
 
@@ -857,7 +859,7 @@ def _report(pid, tier, obligations, results, meta, wall, seed):
                      key=lambda d: -d["wall_s"])[:5]
 
     # replay files + verdict lines
-    os.makedirs(os.path.join(VERIF, "replays"), exist_ok=True)
+    os.makedirs(os.path.join(OUT, "replays"), exist_ok=True)
     lines = []
     seen = set()
     for v in violations:
@@ -866,7 +868,7 @@ def _report(pid, tier, obligations, results, meta, wall, seed):
         if dig in seen or len(seen) >= 5:
             continue
         seen.add(dig)
-        path = os.path.join(VERIF, "replays", f"{pid}-{v['obligation']}-{dig}.json")
+        path = os.path.join(OUT, "replays", f"{pid}-{v['obligation']}-{dig}.json")
         with open(path, "w") as f:
             json.dump({"property": pid, **v}, f, indent=1, sort_keys=True)
         lines.append(f"VIOLATION property={pid} replay={path}")
@@ -937,8 +939,8 @@ def _report(pid, tier, obligations, results, meta, wall, seed):
         "wall_s": round(wall, 2),
         "violations": len(lines) - len(known_hits) if violations else 0,
     }
-    os.makedirs(os.path.join(VERIF, "evidence"), exist_ok=True)
-    with open(os.path.join(VERIF, "evidence", f"{pid}.json"), "w") as f:
+    os.makedirs(os.path.join(OUT, "evidence"), exist_ok=True)
+    with open(os.path.join(OUT, "evidence", f"{pid}.json"), "w") as f:
         json.dump(evidence, f, indent=1, sort_keys=True, default=str)
 
     for ln in lines:
@@ -968,7 +970,8 @@ def _report(pid, tier, obligations, results, meta, wall, seed):
 def _source_hashes(files):
     out = {}
     for f in files:
-        p = os.path.join("/repo/perception_eval/perception_eval", f)
+        import perception_eval
+        p = os.path.join(os.path.dirname(os.path.abspath(perception_eval.__file__)), f)
         try:
             with open(p, "rb") as fh:
                 out[f] = hashlib.sha256(fh.read()).hexdigest()
